@@ -6,6 +6,8 @@ import JSight.LayoutExamples
 import JSight.CommentExamples
 import JSight.AnnotExamples
 import JSight.AnnTreeExamples
+import JSight.ATreeStrip
+import JSight.ATreeExamples
 /-!
 # C13 — Meaning is invariant under surface syntax: the part that is a theorem
 
@@ -374,5 +376,86 @@ theorem C13_annotated_node_inline_vs_multiline (src src' : Array UInt8) {st st2 
 /-- non-vacuity: `1 // {min: 0} ⏎` against `1 /* {min: 0} */`, each from the empty loader state (also an instance of
 `C13_annotation_binds_in_any_tree_inline`) -/
 example := SchemaScan.Len.Ex.effectBC
+
+end Props.C13
+
+namespace Props.C13
+
+/-! ## Schema side: WHOLE annotated trees (work package c13tree; modules `ATreeDefs`, `ATreeSeg`, `ATreeTok`, `ATreeLoad*`,
+`ATreeThm`, `ATreeStrip`, `ATreeExamples`)
+
+`AT.ATree`: annotated trees with layout — scalars / arrays / objects of any nesting and width; every item and member value may
+carry ONE annotation `{rules} [- note]` (rule objects of `Lay.BObj`: bare names, literal values, optional trailing comma):
+scalars before or behind the comma that follows them, containers behind their opening bracket, each in the inline form
+(`// … ⏎`) or the multi-line form (`/* … */`, line breaks inside); blanks, line breaks (LF / CR) and `#` line comments
+(`AT.Gap`) wherever the token grammar of C14 takes them. `ATree.toks` is the rendering as tokens (`AT.BTok`, byte level, with the
+class-level token `BTok.cls` of `AnnTreeTok`), `AT.docText w0 t w1` the schema text (layout, tree, layout).
+`ATree.table` is the SPEC: one node per value in source order (pre-order) with kind, parent, children, the decoded keys of an
+object, the literal token of a scalar, and the annotation of THAT node: rule names and rule value texts in written order, the
+note. `AT.lineOK w0 t` is the decidable line discipline: walking the tree with the number of nodes created on the current line
+(`pl`) and whether the scanner's `allowAnnotation` is known to be on (`ak`: on at the start, after a key that follows `{`, after a
+line break behind a comma; treated as unknown behind a closing bracket), every annotation is met with `ak` and `pl = 1` — i.e.
+it follows exactly ONE node creation on its line, which is then the node the tree attaches it to; also: commas separate, keys of
+one object are distinct after decoding, no comment around a colon. `AT.TokOK` is the token grammar (the scanner's token automata
+for scalars and keys, `InlBody.Valid` / `MlBody.Valid` for annotations, non-empty notes). The proof is an induction on the tree
+(`AT.value_all` / `items_all` / `members_all`) that composes, per token, the token-level scanner step (`astep`), the loader
+lemmas `X_*` and the two `C13_annotation_binds_in_any_tree_*` theorems as segments (`AT.Seg`).
+Restriction of the statement: the top-level value is a container (a top-level annotated scalar is `C13_annotated_scalar_loads`).
+Not in the class: `###` block comments, quoted rule names and non-literal rule values inside trees, the note-only annotation. -/
+
+open AT in
+/-- **the text of a well-formed annotated tree loads into the table the tree denotes**: scanner model + loader model
+(`Loader.loadText`) accept the text, the root is node 0, and the loader's table read against the text
+(`AT.abstractOf`: every span replaced by the bytes it denotes) is `t.table` — every annotation bound to ITS node -/
+theorem C13_annotated_tree_loads (w0 : Gap) (t : ATree) (w1 : Gap) (hc : t.isContainer = true)
+    (hl : lineOK w0 t = true) (hw : TokOK (docToks w0 t w1)) :
+    ∃ st, Loader.loadText (docText w0 t w1) = .ok st ∧ st.root = some 0 ∧
+      abstractOf (docText w0 t w1).toArray st = t.table :=
+  AT.tree_loads w0 t w1 hc hl hw
+
+/-- non-vacuity: an ordinary pretty-printed schema meets the hypotheses:
+`{ // {min: 0} - note⏎"a": 1 /* {min: 0} */,⏎"aa": [⏎1, // {min: 0} - note⏎2⏎]⏎}` (`lineOK` by `decide`) -/
+example := C13_annotated_tree_loads [] AT.Ex.t1 [] rfl AT.Ex.t1_line AT.Ex.t1_tok
+/-- its table: the object (rule `min`, note), `1` (rule `min`), the array, `1` (rule `min`, note), `2` -/
+example : AT.Ex.t1.table.map (fun x => (x.kind, x.parent, x.children, x.rules.length, x.note.isSome)) =
+    [(.obj, none, [1, 2], 1, true), (.lit, some 0, [], 1, false), (.arr, some 0, [3, 4], 0, false),
+      (.lit, some 2, [], 1, true), (.lit, some 2, [], 0, false)] := by decide
+
+open AT in
+/-- **layout invariance / inline versus multi-line, whole trees**: two annotated trees with the same `strip` — the
+annotations' form (inline / multi-line, before / behind the comma, blanks, line breaks inside, trailing comma), blanks, line
+ends and `#` comments erased; what is left: kinds, decoded keys, scalar tokens, per node the (name, value text) pairs in
+written order and the trimmed note — have the same table -/
+theorem C13_annotated_tree_table_of_strip (t t' : ATree) (hs : t.strip = t'.strip) : t.table = t'.table :=
+  AT.table_of_strip t t' hs
+
+open AT in
+/-- **… and their texts load into the same table**: whatever surface form each uses (both well formed) -/
+theorem C13_annotated_tree_layout_invariant (w0 w0' : Gap) (t t' : ATree) (w1 w1' : Gap) (hs : t.strip = t'.strip)
+    (hc : t.isContainer = true) (hl : lineOK w0 t = true) (hl' : lineOK w0' t' = true)
+    (hw : TokOK (docToks w0 t w1)) (hw' : TokOK (docToks w0' t' w1')) :
+    ∃ st st', Loader.loadText (docText w0 t w1) = .ok st ∧ Loader.loadText (docText w0' t' w1') = .ok st' ∧
+      st.root = st'.root ∧
+      abstractOf (docText w0 t w1).toArray st = abstractOf (docText w0' t' w1').toArray st' :=
+  AT.layout_invariant w0 w0' t t' w1 w1' hs hc hl hl' hw hw'
+
+open AT in
+/-- **inline versus multi-line, whole trees**: the instance of the previous theorem the property text names — `t'` is `t`
+with any of its annotations re-spelled in the other form (same pairs, same note: same `strip`) -/
+theorem C13_annotated_tree_inline_vs_multiline (w0 w0' : Gap) (t t' : ATree) (w1 w1' : Gap) (hs : t.strip = t'.strip)
+    (hc : t.isContainer = true) (hl : lineOK w0 t = true) (hl' : lineOK w0' t' = true)
+    (hw : TokOK (docToks w0 t w1)) (hw' : TokOK (docToks w0' t' w1')) :
+    ∃ st st', Loader.loadText (docText w0 t w1) = .ok st ∧ Loader.loadText (docText w0' t' w1') = .ok st' ∧
+      abstractOf (docText w0 t w1).toArray st = abstractOf (docText w0' t' w1').toArray st' :=
+  let ⟨st, st', h1, h2, _, h4⟩ := AT.layout_invariant w0 w0' t t' w1 w1' hs hc hl hl' hw hw'
+  ⟨st, st', h1, h2, h4⟩
+
+/-- non-vacuity: the schema above against its re-spelling with CR LF line ends, a `#` comment, tabs and more blanks, the
+annotation of the first array item in the MULTI-LINE form (line break inside) BEFORE the comma instead of the inline form
+behind it -/
+example := C13_annotated_tree_layout_invariant [] [.nl 10] AT.Ex.t1 AT.Ex.t2 [] [.nl 10] AT.Ex.same_strip rfl AT.Ex.t1_line
+  AT.Ex.t2_line AT.Ex.t1_tok AT.Ex.t2_tok
+example := C13_annotated_tree_inline_vs_multiline [] [.nl 10] AT.Ex.t1 AT.Ex.t2 [] [.nl 10] AT.Ex.same_strip rfl AT.Ex.t1_line
+  AT.Ex.t2_line AT.Ex.t1_tok AT.Ex.t2_tok
 
 end Props.C13
